@@ -296,6 +296,9 @@ func body(r *ev.Run) {
 		if op == "GetTip" || op == "GetHeaderByHash" {
 			pairRendezvous()
 		}
+		if op == "AddHeaderToDatabase" {
+			pairInsertRendezvous()
+		}
 		if op == "UpdateState" && relabel.armed {
 			relabel.n++
 			if relabel.n == relabel.at {
